@@ -11,6 +11,7 @@ def nat(x):
 
 
 _blk = [0]
+MACROS = [False]        # set per case by gen_interp_case: methods with macro definitions and calls
 
 
 def gen_lines(rng, depth=0, max_items=6, in_block=False, in_cond=False):
@@ -38,6 +39,11 @@ def gen_lines(rng, depth=0, max_items=6, in_block=False, in_cond=False):
         elif r < 0.53 and depth < 3:
             out.append((depth, f"Alarm: X > {rng.randint(1, 3)}"))
             out += gen_lines(rng, depth + 1, 3, in_block, True)
+        elif r < 0.555 and MACROS[0] and depth < 2:
+            out.append((depth, f"Macro: M{rng.randint(1, 3)}"))
+            out += gen_lines(rng, depth + 1, 3, in_block, in_cond)
+        elif r < 0.59 and MACROS[0]:
+            out.append((depth, f"{thr}Call macro: M{rng.randint(1, 4)}"))
         elif r < 0.62:
             out.append((depth, f"{thr}Wait: {rng.choice(['0 s', '0.5 s', '1 s', '1.5 s', '2 s'])}"))
         elif r < 0.70:
@@ -89,9 +95,67 @@ def gen_nested(rng):
     return out
 
 
+def gen_macros(rng):
+    """directed shape: 1-3 macro definitions (bodies of marks, waits, commands, a block, a watch, calls of other macros,
+    sometimes of themselves), redefinitions, then calls at top level, in blocks and in watch bodies, also of undefined names"""
+    out = []
+    names = [f"M{k}" for k in range(1, rng.randint(1, 3) + 1)]
+
+    def body(d, me):
+        n = rng.randint(1, 4)
+        for _ in range(n):
+            r = rng.random()
+            if r < 0.35:
+                out.append((d, f"Mark: {rng.choice('ABCDE')}"))
+            elif r < 0.5:
+                out.append((d, f"Wait: {rng.choice(['0 s', '0.5 s', '1 s'])}"))
+            elif r < 0.62:
+                out.append((d, f"{rng.choice(['CmdA', 'CmdB'])}: d=0"))
+            elif r < 0.74:
+                others = [x for x in names if x != me] or ["M9"]
+                out.append((d, f"Call macro: {me if rng.random() < 0.06 else rng.choice(others)}"))
+            elif r < 0.84 and d < 2:
+                _blk[0] += 1
+                out.append((d, f"Block: B{_blk[0]}"))
+                out.append((d + 1, rng.choice(["Mark: A", "Wait: 0.5 s"])))
+                if rng.random() < 0.85:
+                    out.append((d + 1, "End block"))
+            elif r < 0.92 and d < 2:
+                out.append((d, f"Watch: X > {rng.randint(1, 3)}"))
+                out.append((d + 1, rng.choice(["Mark: W", "Wait: 0.5 s", f"Call macro: {rng.choice(names)}"])))
+            else:
+                out.append((d, rng.choice(["Noop: 2", "", "Increment run counter"])))
+    defs = list(names) + ([rng.choice(names)] if rng.random() < 0.3 else [])
+    rng.shuffle(defs)
+    pre = rng.random() < 0.1
+    if pre:
+        out.append((0, f"Call macro: {rng.choice(names)}"))          # a call before the definition
+    for nm in defs:
+        out.append((0, f"Macro: {nm}"))
+        body(1, nm)
+    for _ in range(rng.randint(1, 5)):
+        r = rng.random()
+        nm = rng.choice(names) if rng.random() < 0.92 else "M9"
+        if r < 0.6:
+            out.append((0, f"Call macro: {nm}"))
+        elif r < 0.75:
+            _blk[0] += 1
+            out.append((0, f"Block: B{_blk[0]}"))
+            out.append((1, f"Call macro: {nm}"))
+            out.append((1, "End block"))
+        elif r < 0.9:
+            out.append((0, f"Watch: X > {rng.randint(1, 3)}"))
+            out.append((1, f"Call macro: {nm}"))
+        else:
+            out.append((0, rng.choice(["Mark: Z", "Wait: 1 s"])))
+    return out
+
+
 def gen_interp_case(rng):
     _blk[0] = 0
-    items = gen_nested(rng) if rng.random() < 0.12 else gen_lines(rng, 0, rng.randint(2, 8))
+    MACROS[0] = rng.random() < 0.35
+    r0 = rng.random()
+    items = gen_nested(rng) if r0 < 0.12 else gen_macros(rng) if r0 < 0.27 else gen_lines(rng, 0, rng.randint(2, 8))
     for _ in range(rng.choice([0, 0, 1, 2])):
         items.append((0, rng.choice(["", "# c"])))
     lines = [("    " * d) + t if t else "" for d, t in items]
@@ -122,6 +186,8 @@ def kind_coq(k):
         return f"(KWait {z(int(round(float(num) * 10)))})"
     if k[0] == "KNoop":
         return f"(KNoop {nat(k[1])})"
+    if k[0] in ("KMacro", "KCallMacro"):
+        return f"({k[0]} {nat(k[1])})"
     return k[0]
 
 
